@@ -69,11 +69,6 @@ Proof.
   - left. split; reflexivity.
 Qed.
 
-Ltac simcase H f s s' :=
-  let C := fresh "C" in
-  destruct (shv_cases _ _ (sim_shv f s s' eq_refl H)) as [[C ?]|(? & ? & ? & ? & ? & ? & C & ?)];
-  cbn [get] in *.
-
 (** pairs of results with equal class and similar states *)
 Lemma pnorm_pair c a b : sim a b -> pnorm (c, a) = pnorm (c, b).
 Proof. unfold pnorm, sim. cbn [fst snd]. intros ->. reflexivity. Qed.
@@ -165,14 +160,6 @@ Proof.
   intro H. pose proof (sim_shv FFreq s s' eq_refl H) as E. cbn [get] in E. unfold frq.
   destruct (o_freq s) as [d|], (o_freq s') as [d'|]; cbn in E; try discriminate E; [exact E|reflexivity].
 Qed.
-Lemma shv_nv f a b : serialised f = true -> shv a = shv b ->
-  (forall x y, a = Some x -> b = Some y -> (if is_dirs f then nk (dk x) else dk x) = (if is_dirs f then nk (dk y) else dk y)) ->
-  nv f a = nv f b.
-Proof.
-  unfold nv. intros -> E K. destruct a as [[k sh v o]|], b as [[k' sh' v' o']|]; cbn in E; try discriminate E;
-    [|reflexivity].
-  injection E as E1 E2. subst. specialize (K _ _ eq_refl eq_refl). cbn in K. cbn. unfold nd. cbn. rewrite K. reflexivity.
-Qed.
 Lemma sim_frq_nv s s' : sim s s' -> nv FFreq (frq s) = nv FFreq (frq s').
 Proof.
   intro H. pose proof (sim_get FFreq s s' H) as E. cbn [get] in E. unfold frq.
@@ -253,11 +240,6 @@ Proof.
 Qed.
 
 (** ** every call except the direct-sound collect *)
-Lemma pnorm_normr_sim (r1 r2 : rclass * ostate) :
-  pnorm r1 = pnorm r2 ->
-  normr (let '(c, s') := r1 in (c, s', ONone)) = normr (let '(c, s') := r2 in (c, s', ONone)).
-Proof. exact (pnorm_normr r1 r2). Qed.
-
 Theorem bisim_step_full g s s' o :
   direct_collect o = false -> sim s s' -> normr (ostep g s o) = normr (ostep g s' o).
 Proof.
@@ -274,8 +256,6 @@ Proof.
   - apply bisim_step; [reflexivity|exact H].
   - apply bisim_step; [reflexivity|exact H].
 Qed.
-
-Definition no_direct (h : list op) : bool := forallb (fun o => negb (direct_collect o)) h.
 
 (** every continuation without direct-sound collects: equal classes and observations, similar ends *)
 Theorem bisim_trace_full g h : forall s s',
